@@ -576,6 +576,12 @@ pub fn build_fast_check_type_graph<'a>(
     let mut fast_check_modules =
       Vec::with_capacity(package.module_ranges.len());
     if package.cache_items.is_empty() {
+      // every module whose content took part in deciding what is public
+      let traced_specifiers = if fast_check_cache.is_some() {
+        package.module_ranges.keys().cloned().collect::<Vec<_>>()
+      } else {
+        Vec::new()
+      };
       transform_package(
         package.module_ranges,
         root_symbol,
@@ -629,6 +635,28 @@ pub fn build_fast_check_type_graph<'a>(
               FastCheckCacheModuleItemDiagnostic { source_hash },
             ),
           ));
+        }
+        if !errors.is_empty() {
+          // A failure also depends on the traced modules that were not
+          // reached before the first diagnostic (they may be what makes the
+          // offending declaration public), so an edit to any of them must
+          // invalidate the remembered failure.
+          for specifier in traced_specifiers {
+            if package_cache_items.iter().any(|(s, _)| *s == specifier) {
+              continue;
+            }
+            let source_hash = graph
+              .get(&specifier)
+              .and_then(|m| m.source())
+              .map(|s| fast_insecure_hash(s.as_bytes()))
+              .unwrap_or(0);
+            package_cache_items.push((
+              specifier,
+              FastCheckCacheModuleItem::Diagnostic(
+                FastCheckCacheModuleItemDiagnostic { source_hash },
+              ),
+            ));
+          }
         }
         let cache_key = FastCheckCacheKey::build(
           fast_check_cache.hash_seed(),
